@@ -11,6 +11,10 @@ func init() {
 	addStages("C04", "fault_enumeration", e2, chaos())
 	addStages("C02", "exploration", e2,
 		Stage{Engine: "clusterrun", Mode: "learner", BatchesQ: 6, BatchesT: 12, Par: 6, TimeoutQ: 900, TimeoutT: 3600})
+	// the same stage decides the clause of C01 about operations that end without a result on a
+	// shard with a single voter and a non-voting replica (reads through non-voting replicas)
+	addStages("C01", "exploration", e2,
+		Stage{Engine: "clusterrun", Mode: "learner", BatchesQ: 6, BatchesT: 12, Par: 6, TimeoutQ: 900, TimeoutT: 3600})
 	addStages("C11", "exploration", e2,
 		Stage{Engine: "clusterrun", Mode: "contract", Race: true, BatchesQ: 12, BatchesT: 16, Par: 12, TimeoutQ: 900, TimeoutT: 5400,
 			RaceAttr: []string{"cluster.(*SMInst)", "cluster.(*regularSM)", "cluster.(*concurrentSM)", "cluster.(*onDiskSM)"}})
